@@ -137,8 +137,20 @@ func fprintf(g *fact.Gen, st ast.Stmt) (string, []string, bool) {
 	return f, args, true
 }
 
+// argCodes: the Fprintf arguments the model knows, as small numbers (99 = anything else).
+var argCodes = map[string]int{"oldName": 0, "newName": 1, "chunk.x": 0, "count.x": 1, "chunk.y": 2, "count.y": 3}
+
+// leanFmt renders (format bytes, argument codes).
 func leanFmt(f string, args []string) string {
-	return "(" + strconv.Quote(f) + ", " + fact.LeanStrList(args) + ")"
+	codes := make([]string, len(args))
+	for i, a := range args {
+		c, ok := argCodes[a]
+		if !ok {
+			c = 99
+		}
+		codes[i] = strconv.Itoa(c)
+	}
+	return "(" + fact.LeanBytes(f) + ", [" + strings.Join(codes, ", ") + "])"
 }
 
 func genDiff(g *fact.Gen) {
@@ -263,22 +275,23 @@ func genDiff(g *fact.Gen) {
 	} else {
 		g.Lost("fmtHunk", "hunk header Fprintf not found")
 	}
-	g.Emit("/-- hunk header: format and arguments of the Fprintf in the chunk-closing branch -/\ndef fmtHunk : String × List String := %s\n", leanFmt(hunkFmt, hunkArgs))
-	var hdr []string
+	g.Emit("/-- hunk header: format %s and arguments %s of the Fprintf in the chunk-closing branch\n(arguments coded chunk.x=0 count.x=1 chunk.y=2 count.y=3, other=99) -/\ndef fmtHunk : GIV.Bytes × List Nat := %s\n", strconv.Quote(hunkFmt), strings.Join(hunkArgs, ","), leanFmt(hunkFmt, hunkArgs))
+	var hdr, hdrDoc []string
 	if body != nil {
 		for _, st := range body.List {
 			if f, a, ok := fprintf(g, st); ok {
 				hdr = append(hdr, leanFmt(f, a))
+				hdrDoc = append(hdrDoc, strconv.Quote(f)+" "+strings.Join(a, ","))
 			}
 		}
 	}
 	if len(hdr) > 0 {
-		g.Found("fmtHeader", strings.Join(hdr, " "))
+		g.Found("fmtHeader", strings.Join(hdrDoc, " ; "))
 	} else {
 		g.Lost("fmtHeader", "header Fprintf calls not found")
 		hdr = []string{leanFmt("diff %s %s\n", []string{"oldName", "newName"}), leanFmt("--- %s\n", []string{"oldName"}), leanFmt("+++ %s\n", []string{"newName"})}
 	}
-	g.Emit("/-- the header lines: Fprintf calls at the top level of Diff, in order -/\ndef fmtHeader : List (String × List String) := [%s]\n", strings.Join(hdr, ", "))
+	g.Emit("/-- the header lines: Fprintf calls at the top level of Diff, in order: %s\n(arguments coded oldName=0 newName=1, other=99) -/\ndef fmtHeader : List (GIV.Bytes × List Nat) := [%s]\n", strings.ReplaceAll(strings.Join(hdrDoc, " ; "), "-/", "- /"), strings.Join(hdr, ", "))
 
 	// ---- line tags: `for _, s := range <slice> { ctext = append(ctext, "<tag>"+s) ...`
 	tag := func(name, slice, pinned string) {
